@@ -2,18 +2,22 @@
 
 use crate::diagnostics::{Diagnostic, Diagnostics, Error};
 use crate::grammar::*;
+use std::collections::HashSet;
 
 pub fn validate_dictionary(dictionary: &Dictionary, diagnostics: &mut Diagnostics) {
     has_allowed_key_type(dictionary, diagnostics);
 }
 
 fn has_allowed_key_type(dictionary: &Dictionary, diagnostics: &mut Diagnostics) {
-    if let Some(e) = check_dictionary_key_type(&dictionary.key_type) {
+    if let Some(e) = check_dictionary_key_type(&dictionary.key_type, &mut HashSet::new()) {
         e.push_into(diagnostics)
     }
 }
 
-fn check_dictionary_key_type(type_ref: &TypeRef) -> Option<Diagnostic> {
+/// Checks whether the provided type can be used as a dictionary key, and returns an error describing why if it can't.
+/// `valid_structs` holds the identifiers of the compact structs that were already found to be valid keys: their fields
+/// aren't checked again (the same struct can be reached through many paths, and their number can grow exponentially).
+fn check_dictionary_key_type(type_ref: &TypeRef, valid_structs: &mut HashSet<String>) -> Option<Diagnostic> {
     // Optional types cannot be used as dictionary keys.
     if type_ref.is_optional {
         return Some(Diagnostic::new(Error::KeyMustBeNonOptional).set_span(type_ref.span()));
@@ -27,12 +31,17 @@ fn check_dictionary_key_type(type_ref: &TypeRef) -> Option<Diagnostic> {
                 return Some(Diagnostic::new(Error::StructKeyMustBeCompact).set_span(type_ref.span()));
             }
 
+            // If we've already checked the fields of this struct, and they're all valid key types, we're done.
+            if valid_structs.contains(&struct_def.parser_scoped_identifier()) {
+                return None;
+            }
+
             // Check that all the fields of the struct are also valid key types.
             // We collect the invalid fields so we can report them in the error message.
             let errors = struct_def
                 .fields()
                 .into_iter()
-                .filter_map(|field| check_dictionary_key_type(field.data_type()))
+                .filter_map(|field| check_dictionary_key_type(field.data_type(), valid_structs))
                 .collect::<Vec<_>>();
             if !errors.is_empty() {
                 let mut error = Diagnostic::new(Error::StructKeyContainsDisallowedType {
@@ -46,6 +55,7 @@ fn check_dictionary_key_type(type_ref: &TypeRef) -> Option<Diagnostic> {
                 }
                 return Some(error);
             }
+            valid_structs.insert(struct_def.parser_scoped_identifier());
             true
         }
 
